@@ -37,7 +37,10 @@ _ADV_PATHS = [
 ]
 _TAILS = [b"q:k=v|", b"f:top|", b"q:a=1|"]
 
-LONG_LENGTHS = [73, 74, 75, 76, 147, 148, 149, 150, 221, 222, 223, 224, 296, 300, 600]
+LONG_LENGTHS = [73, 74, 75, 76, 147, 148, 149, 150, 221, 222, 223, 224, 296, 297, 300, 600, 666, 667, 740, 1000]
+# rare: stems whose tail needs hundreds of blocks (around 256 tail blocks, and far beyond)
+HUGE_LENGTHS = [4810, 4811, 18944, 18945, 19100]
+HUGE = [False]  # set per pool
 
 
 _ADV_SUBS = [b"h:WWW|", b"h:Www|", b"h:www|", b"h:Blog|"]
@@ -67,8 +70,11 @@ def _site(rng, adversarial=False):
 
 def long_stem(rng, kind=b"p:"):
     L = rng.choice(LONG_LENGTHS)
-    if rng.random() < 0.2:
+    x = rng.random()
+    if x < 0.2:
         L = rng.randint(70, 320)
+    elif x < 0.26 and HUGE[0]:
+        L = rng.choice(HUGE_LENGTHS)
     # shared long prefix, difference in the last 1..3 payload bytes so that
     # sibling comparisons are decided inside a tail block
     fill = rng.choice([b"a", b"a", b"b"])
@@ -87,7 +93,8 @@ def long_stem(rng, kind=b"p:"):
     return kind + body + b"|"
 
 
-def gen_pool(rng, profile, n):
+def gen_pool(rng, profile, n, huge=False):
+    HUGE[0] = bool(huge)
     pool = []
     seen = set()
 
@@ -113,10 +120,11 @@ def gen_pool(rng, profile, n):
                 s0 = s0 + [b"h:www|"]
             sites.append(s0)
         tries = 0
+        deep = rng.random() < 0.1  # some pools hold LRUs a dozen stems deep
         while len(pool) < n and tries < n * 20:
             tries += 1
             st = list(rng.choice(sites))
-            depth = rng.choice([0, 1, 1, 2, 2, 3, 4])
+            depth = rng.choice([0, 1, 1, 2, 2, 3, 4]) if not deep else rng.choice([1, 3, 6, 9, 12, 12])
             for _ in range(depth):
                 if profile == "long-stems" and rng.random() < 0.6:
                     st.append(long_stem(rng))
@@ -152,9 +160,10 @@ def gen_pool(rng, profile, n):
         if rng.random() < 0.2:
             stempool.append(bytes(rng.choice(alpha) for _ in range(rng.choice([74, 75, 149]) - 1)) + b"|")
         tries = 0
+        deep_ab = rng.random() < 0.1
         while len(pool) < n and tries < n * 20:
             tries += 1
-            depth = rng.choice([1, 1, 2, 2, 3, 3, 4])
+            depth = rng.choice([1, 1, 2, 2, 3, 3, 4]) if not deep_ab else rng.choice([2, 5, 9, 12])
             push(b"".join(rng.choice(stempool) for _ in range(depth)))
     else:
         raise ValueError(profile)
